@@ -109,6 +109,14 @@ class Work(System):
         if f and f.get("where") == "system" and m.fail_me and t == min(f.get("t", 0), max(0, m.stop_at - 1)):
             raise_injected(m, f"injected failure in system at t={t} of {m.sig}")
         us = CONFIG.get("sleep_us")
+        if CONFIG.get("isolation_probe"):
+            # interpreter-wide state written when the model was built and read back during its run: worker PROCESSES each have
+            # their own copy; anything that runs executions concurrently inside one interpreter lets them overwrite each other
+            type(m).current_sig = m.sig
+            if us:
+                time.sleep(us / 2e6)
+            if type(m).current_sig != m.sig:
+                m.entry["leaks"] = m.entry.get("leaks", 0) + 1
         if us:
             time.sleep(((sum(ord(c) for c in m.sig) * 7919 + t * 104729) % us) / 1e6)
 
@@ -240,6 +248,8 @@ def score_fn(model):
         v = v[0] / v[1]
     elif CONFIG.get("numpy_scores") and isinstance(v, int) and -2 ** 62 < v < 2 ** 62:
         v = numpy.int64(v)           # what e.g. numpy.sum over an integer array returns
+    if CONFIG.get("isolation_probe") and isinstance(v, int) and model.entry.get("leaks"):
+        v = v + 1000003 * model.entry["leaks"]
     model.entry["scored"] = True
     model.entry["running_when_scored"] = bool(model.is_running())     # the score function sees the model as the run left it
     return v
